@@ -14,7 +14,7 @@
    order test, division, and the contents of ISA-undefined lanes are arbitrary).  ui16 instructions: over the
    integers (ZOps), every lane in 0..65535.
 
-   To FLIP an instruction <I> after x86.py is repaired (e.g. avx2_mask_storeu_ps): in Proofs.v, inside Section
+   To FLIP an instruction <I> after x86.py is repaired (done for avx2_mask_storeu_ps): in Proofs.v, inside Section
    Float, add     Lemma okS_<I> : instr_ok R o lane_any instr_<I>.  Proof. solve_instr instr_<I>. Qed.
    and after it   Lemma ok_<I> : forall R (o : ROps R), ring_ok o -> instr_ok R o lane_any instr_<I>.  Proof. lift okS_<I>. Qed.
    delete refuted_<I> / partial_<I> (they stop compiling, which is the signal) and replace the pair
@@ -252,17 +252,11 @@ Theorem C14_ZOps_is_a_ring :
 Proof. exact ring_ok_ZOps. Qed.
 Print Assumptions C14_ZOps_is_a_ring.
 
-(* KNOWN FINDING: stores all lanes or none, never "the first N" *)
-Theorem C14_avx2_mask_storeu_ps_refuted :
-  instr_refuted Z ZOps lane_any instr_avx2_mask_storeu_ps.
-Proof. exact refuted_avx2_mask_storeu_ps. Qed.
-Print Assumptions C14_avx2_mask_storeu_ps_refuted.
-
-Theorem C14_avx2_mask_storeu_ps_partial :
-  forall R (o : ROps R), ring_ok o ->
-  instr_ok_when R o lane_any instr_avx2_mask_storeu_ps (BCmp CEq (IVar "N") (ILit 8)).
-Proof. exact partial_avx2_mask_storeu_ps. Qed.
-Print Assumptions C14_avx2_mask_storeu_ps_partial.
+(* was refuted (mask built with _mm256_set1_epi8((1<<N)-1): all lanes or none); repaired in /repo by
+   "fix: avx2_mask_storeu_ps must store the first N lanes" and now proved at full strength for every 1 <= N <= 8 *)
+Theorem C14_avx2_mask_storeu_ps : forall R (o : ROps R), ring_ok o -> instr_ok R o lane_any instr_avx2_mask_storeu_ps.
+Proof. exact ok_avx2_mask_storeu_ps. Qed.
+Print Assumptions C14_avx2_mask_storeu_ps.
 
 (* _mm512_mask_fmadd_ps copies A, not C, into the unselected lanes; the first N lanes are right *)
 Theorem C14_mm512_mask_fmadd_ps_refuted :
